@@ -120,7 +120,7 @@ func run(b kit.Batch, r *kit.R) {
 	var p params
 	b.P(&p)
 	r.ForEach(b.N, func(c *kit.Case) {
-		cfg := sim.RandomStackCfg(c.Rng, sim.GenOpts{NumReqs: p.NumReqs, AllowDRAM: false, AllowBanked: true, MaxDrivers: 3, ForceCache: true})
+		cfg := sim.RandomStackCfg(c.Rng, sim.GenOpts{NumReqs: p.NumReqs, AllowDRAM: false, AllowBanked: true, MaxDrivers: 3, ForceCache: true, RspStall: true})
 		c.Desc(cfg)
 		s := sim.BuildStack(cfg, r.WorkDir)
 		defer s.Close()
